@@ -176,6 +176,11 @@ func genOps(r *rand.Rand, size int64, n int) []viewOp {
 		return r.Int63n(size + 1)
 	}
 	lens := func() int {
+		// one request in twenty asks for more than a mebibyte at once (the ordinary read's limit and a
+		// caller's buffer are the client's choice), aligned or not at either end
+		if size > 1<<20 && r.Intn(20) == 0 {
+			return int(min(size, int64(1<<20+r.Intn(800000)))) - []int{0, 1, 2047, 2048, 100}[r.Intn(5)]
+		}
 		switch r.Intn(6) {
 		case 0:
 			return 1 + r.Intn(16)
@@ -378,6 +383,9 @@ func C10(e *Env) {
 		sectors := 8 + rng.Intn(120)
 		if i%10 == 0 {
 			sectors = 300 + rng.Intn(500)
+		}
+		if i%40 == 7 {
+			sectors = 600 + rng.Intn(900) // 1.2 .. 3 MiB: room for single requests beyond a mebibyte
 		}
 		c := c10Case{Key: tree.Content(rng.Int63(), 16), Sectors: sectors, Seed: rng.Int63(), Clear: rng.Intn(2) == 0}
 		c.Regions, c.Shape = genRegions(rng, sectors)
